@@ -152,8 +152,13 @@ fn main() {
     // ---- prefix + pruned
     for h in 0..n {
         let over = h % 10 == 9;
-        let l = gen_layout(&mut rng, over);
-        let atoms = gen_atoms(&mut rng, &l);
+        let mut l = gen_layout(&mut rng, over);
+        let mut atoms = gen_atoms(&mut rng, &l);
+        if h == 0 {
+            // corpus: the witness of the listed known finding (over-encoded directory name) always runs first
+            l = Layout { cols: vec![("a".to_string(), DataType::Utf8)], files: vec![(vec!["%66oo".to_string()], "f0.csv".to_string()), (vec!["foo".to_string()], "f1.csv".to_string())] };
+            atoms = vec![("a".to_string(), Lit::S("foo".to_string()))];
+        }
         let filters = atoms_to_filters(&mut rng, &atoms);
         let prefix = evaluate_partition_prefix(&l.cols, &filters);
         let parts: Vec<String> = prefix.as_ref().map(|p| p.parts().map(|x| x.as_ref().to_string()).collect()).unwrap_or_default();
@@ -232,24 +237,35 @@ fn main() {
             5 => format!("{c0} >= {}", lit_sql(&l0)),
             _ => format!("{} = {c0} AND {c1} <> {}", lit_sql(&l0), lit_sql(&l1)),
         };
-        let res: Result<(Vec<String>, Vec<String>), String> = rt.block_on(async {
-            let ctx = SessionContext::new();
-            let store = make_store(&l).await;
-            ctx.register_object_store(&url::Url::parse("memory://").unwrap(), store);
-            let opts = ListingOptions::new(Arc::new(CsvFormat::default().with_has_header(true)))
-                .with_file_extension(".csv")
-                .with_table_partition_cols(l.cols.clone());
-            let schema = Arc::new(Schema::new(vec![Field::new("x", DataType::Int64, true)]));
-            let cfg = ListingTableConfig::new(ListingTableUrl::parse("memory:///tbl/").map_err(|e| e.to_string())?)
-                .with_listing_options(opts).with_schema(schema);
-            let table = ListingTable::try_new(cfg).map_err(|e| e.to_string())?;
-            ctx.register_table("t", Arc::new(table)).map_err(|e| e.to_string())?;
+        // a SESSION history: several queries on one context (its list-files cache persists between
+        // them): two different partition filters first, then the generated predicate, then no filter.
+        // The reference rows come from a second, fresh context over a copy of the store.
+        let from_dir = |rng: &mut Rng| -> String {
+            let d = rng.pick(&l.files).0[0].clone();
+            match t0 { DataType::Int32 => match pct_decode(&d).parse::<i32>() { Ok(v) => format!("{c0} = {v}"), _ => format!("{c0} = 1") }, _ => format!("{c0} = {}", lit_sql(&Lit::S(pct_decode(&d)))) }
+        };
+        let preds: Vec<String> = vec![from_dir(&mut rng), from_dir(&mut rng), pred.clone(), "TRUE".to_string()];
+        let res: Result<Vec<(Vec<String>, Vec<String>)>, String> = rt.block_on(async {
             let colsel = l.cols.iter().map(|(n, _)| n.clone()).collect::<Vec<_>>().join(", ");
-            // all rows, materialised into a memory table, then filtered there
-            let all = ctx.sql(&format!("SELECT x, {colsel} FROM t")).await.map_err(|e| e.to_string())?.collect().await.map_err(|e| e.to_string())?;
+            let mk = |store: Arc<InMemory>| -> Result<SessionContext, String> {
+                let ctx = SessionContext::new();
+                ctx.register_object_store(&url::Url::parse("memory://").unwrap(), store);
+                let opts = ListingOptions::new(Arc::new(CsvFormat::default().with_has_header(true)))
+                    .with_file_extension(".csv")
+                    .with_table_partition_cols(l.cols.clone());
+                let schema = Arc::new(Schema::new(vec![Field::new("x", DataType::Int64, true)]));
+                let cfg = ListingTableConfig::new(ListingTableUrl::parse("memory:///tbl/").map_err(|e| e.to_string())?)
+                    .with_listing_options(opts).with_schema(schema);
+                let table = ListingTable::try_new(cfg).map_err(|e| e.to_string())?;
+                ctx.register_table("t", Arc::new(table)).map_err(|e| e.to_string())?;
+                Ok(ctx)
+            };
+            let ctx = mk(make_store(&l).await)?;      // session under test
+            let refctx = mk(make_store(&l).await)?;   // reference: unfiltered scan only, then filtered in memory
+            let all = refctx.sql(&format!("SELECT x, {colsel} FROM t")).await.map_err(|e| e.to_string())?.collect().await.map_err(|e| e.to_string())?;
             let sch = all.first().map(|b| b.schema()).ok_or("no batches")?;
             let mem = datafusion::datasource::MemTable::try_new(sch, vec![all]).map_err(|e| e.to_string())?;
-            ctx.register_table("m", Arc::new(mem)).map_err(|e| e.to_string())?;
+            refctx.register_table("m", Arc::new(mem)).map_err(|e| e.to_string())?;
             let fmt = |bs: Vec<arrow::record_batch::RecordBatch>| -> Vec<String> {
                 let mut rows = vec![];
                 for b in bs { for r in 0..b.num_rows() {
@@ -258,16 +274,22 @@ fn main() {
                 rows.sort();
                 rows
             };
-            let a = ctx.sql(&format!("SELECT x, {colsel} FROM t WHERE {pred}")).await.map_err(|e| e.to_string())?.collect().await.map_err(|e| e.to_string())?;
-            let b = ctx.sql(&format!("SELECT x, {colsel} FROM m WHERE {pred}")).await.map_err(|e| e.to_string())?.collect().await.map_err(|e| e.to_string())?;
-            Ok((fmt(a), fmt(b)))
+            let mut out = vec![];
+            for p in &preds {
+                let a = ctx.sql(&format!("SELECT x, {colsel} FROM t WHERE {p}")).await.map_err(|e| e.to_string())?.collect().await.map_err(|e| e.to_string())?;
+                let b = refctx.sql(&format!("SELECT x, {colsel} FROM m WHERE {p}")).await.map_err(|e| e.to_string())?.collect().await.map_err(|e| e.to_string())?;
+                out.push((fmt(a), fmt(b)));
+            }
+            Ok(out)
         });
-        let desc = format!("cols={} files={} WHERE {pred}", cols_json(&l.cols), files_json(&l.cols, &l.files));
+        let desc = format!("cols={} files={} session queries WHERE {:?}", cols_json(&l.cols), files_json(&l.cols, &l.files), preds);
         match res {
-            Ok((a, b)) => {
-                let ok = a == b;
-                println!("{{\"k\":\"sql\",\"h\":{h},\"desc\":{},\"rows_pruned\":{},\"rows_scan_then_filter\":{},\"ok\":{ok},\"why\":{}}}", json_str(&desc), a.len(), b.len(),
-                    json_str(&if ok { String::new() } else { format!("listing-table result {:?} != scan-all-then-filter {:?}", a, b) }));
+            Ok(v) => {
+                let bad = v.iter().position(|(a, b)| a != b);
+                let ok = bad.is_none();
+                let rows: usize = v.iter().map(|(a, _)| a.len()).sum();
+                println!("{{\"k\":\"sql\",\"h\":{h},\"desc\":{},\"rows_pruned\":{},\"rows_scan_then_filter\":{},\"ok\":{ok},\"why\":{}}}", json_str(&desc), rows, v.iter().map(|(_, b)| b.len()).sum::<usize>(),
+                    json_str(&match bad { None => String::new(), Some(i) => format!("query #{i} (WHERE {}) of the session: listing-table result {:?} != scan-all-then-filter {:?}", preds[i], v[i].0, v[i].1) }));
             }
             Err(e) => println!("{{\"k\":\"sql\",\"h\":{h},\"desc\":{},\"error\":{},\"ok\":true,\"why\":\"\"}}", json_str(&desc), json_str(&e)),
         }
